@@ -2524,6 +2524,9 @@ class Engine:
                 self.generic_elem -= 1
             n = z3.simplify(zmax(toz(it.hi) - toz(it.lo), z3.IntVal(0)))
             return VPairs(n, z3.Lambda([t], toz(a)), z3.Lambda([t], toz(b)))
+        if isinstance(it, VRange) and it.step == 1 and isinstance(g.target, ast.Name) and ast.unparse(e.elt) in ('[{}]'.format(g.target.id), '[-{}]'.format(g.target.id)):
+            ap = specs.apseq(toz(it.lo), z3.simplify(zmax(toz(it.hi) - toz(it.lo), z3.IntVal(0))))
+            return VSeq(specs.negunits(ap if ast.unparse(e.elt).startswith('[-') else specs.ineg(ap)))
         if isinstance(it, VRange) and it.step == 1 and isinstance(g.target, ast.Name) and isinstance(e.elt, ast.List) and not e.elt.elts:
             # [[] for i in range(lo, hi)]: that many fresh empty lists
             I = z3.IntSort()
@@ -2560,6 +2563,10 @@ class Engine:
             if not _mentions(diff, t):
                 # unit-stride progression  [c+lo, c+lo+1, ...]: an abstract literal list apseq(start, n)
                 return VSeq(specs.apseq(z3.simplify(z3.substitute(toz(body), (t, z3.IntVal(0)))), z3.simplify(n)))
+            nsum = z3.simplify(toz(body) + t)
+            if not _mentions(nsum, t):
+                # [-(c + i) for i in range]: the negations of a unit-stride progression
+                return VSeq(specs.ineg(specs.apseq(z3.simplify(-z3.substitute(toz(body), (t, z3.IntVal(0)))), z3.simplify(n))))
             return VArr(z3.simplify(n), z3.Lambda([t], toz(body)))
         if isinstance(it, VSeq) and it.sortname == 'ISeq' and isinstance(g.target, ast.Name) and isinstance(e.elt, ast.Subscript) \
                 and isinstance(e.elt.slice, ast.Name) and e.elt.slice.id == g.target.id:
@@ -2744,6 +2751,8 @@ class Engine:
                 return VTerms(specs.tunit(it.term))
             if src == '[-{}]'.format(g.target.id):
                 return VSeq(specs.negunits(it.term))
+            if src == '[{}]'.format(g.target.id):
+                return VSeq(specs.negunits(specs.ineg(it.term)))      # [[x] for x in X] = [[-y] for y in -X]  (exactly, for ints)
             if src == '-' + g.target.id:
                 return VSeq(specs.ineg(it.term))
             if src == g.target.id:
@@ -2888,6 +2897,27 @@ class Engine:
             # sequence  (concrete prefix) ++ (sequence); sound for a list no other name refers to (a local accumulator)
             env[e.func.value.id] = VSeq(specs.capp(_term(f[1]) if f[1].items else specs.cnil, args[0].term))
             return None
+        if isinstance(f, tuple) and f[0] == 'method' and f[2] == 'extend' and isinstance(f[1], (VTuple, VSeq)) and len(args) == 1 \
+                and isinstance(e.func.value, ast.Name) and (not isinstance(f[1], VTuple) or (f[1].kind == 'list' and all(
+                    isinstance(x, int) or (is_z3(x) and z3.is_int(x)) for x in f[1].items))) \
+                and (not isinstance(f[1], VSeq) or f[1].sortname == 'ISeq'):
+            # lits.extend(<ints>) on a LOCAL list of ints: from here on the name denotes the abstract list (so far) ++ (the new ints);
+            # sound for a list no other name refers to (a local accumulator)
+            av = args[0]
+            if isinstance(av, VObj):
+                av = self.call_method(av, '__iter__', [], {}, e)
+            if isinstance(av, VRange) and av.step == 1:
+                at = specs.apseq(toz(av.lo), z3.simplify(zmax(toz(av.hi) - toz(av.lo), z3.IntVal(0))))
+            elif isinstance(av, VSeq) and av.sortname == 'ISeq':
+                at = av.term
+            elif isinstance(av, VArr) and av.arr.sort().range() == z3.IntSort():
+                at = specs.iofarr(av.arr, toz(av.length))
+            else:
+                at = None
+            if at is not None:
+                cur = f[1].term if isinstance(f[1], VSeq) else _term(f[1]) if f[1].items else specs.inil
+                env[e.func.value.id] = VSeq(specs.iapp(cur, at))
+                return None
         if isinstance(f, VClosure):
             return self.call_inline(f.node, f.env, args, kw, f.modinfo, None, e)
         if isinstance(f, VSpecPred):
@@ -3691,7 +3721,7 @@ SPEC_FUNCS = {
     'psat': _wrap(specs.psat), 'valid1': _wrap(specs.valid1), 'cvalid': _wrap(specs.cvalid), 'cdistinct': _wrap(specs.cdistinct),
     'cmem': _wrap(specs.cmem), 'csubsel': _wrap(specs.csubsel),
     'setof': lambda eng, node, L: VSeqSet(specs.cset(_term(L))),
-    'isnoc': _wrap(specs.isnoc), 'iapp': _wrap(specs.iapp), 'paug': lambda eng, node, v: VSeq(v.aug), 'ifront': _wrap(specs.ifront), 'ilast': _wrap(specs.ilast),
+    'isnoc': _wrap(specs.isnoc), 'ineg': _wrap(specs.ineg), 'iapp': _wrap(specs.iapp), 'paug': lambda eng, node, v: VSeq(v.aug), 'ifront': _wrap(specs.ifront), 'ilast': _wrap(specs.ilast),
     'valid1x': _wrap(specs.valid1x), 'cvalidx': _wrap(specs.cvalidx), 'psatx': _wrap(specs.psatx),
     'evrow': sf_evrowt, 'rowapp': _wrap(specs.rowapp), 'rowsfrom': _wrap(specs.rowsfrom),
     'nonnone': sf_nonnone,
